@@ -16,6 +16,20 @@ def _main() -> int:
     cov = coverage.Coverage(data_file=os.path.join(cov_dir, "cov"), data_suffix=True,
                             source=[os.path.join(repo, "src", "onnx_ir")], concurrency=["thread"])
     cov.start()
+    if sys.argv[1:2] != ["C08"]:
+        # checks that run cases in forked children leave them through os._exit: record those too
+        # (not for C08, whose thousands of crash-point children would each write a data file)
+        real_exit, parent = os._exit, os.getpid()
+
+        def _exit(code):
+            if os.getpid() != parent:
+                try:
+                    cov.stop()
+                    cov.save()
+                except Exception:  # noqa: BLE001
+                    pass
+            real_exit(code)
+        os._exit = _exit
     try:
         return run_shard_main(sys.argv[1:])
     finally:
